@@ -714,18 +714,7 @@ def run(run: Run):
                 run.ok(o['rule'], o['construct'], o['fact'], loc=o['loc'])
         for f in sub.findings:
             run.bad(f['rule'], f['construct'], f['sub'], f['message'], loc=f['loc'])
-        # the structural reading adds obligations (holiday subtraction, sign) when the loop is written in a modelled form
-        sub2 = Run('tmp', run.tier, run.seed, quiet=True)
-        try:
-            r4(sub2, rt)
-        except AnalysisError:
-            return
-        if not sub2.errors:
-            for o in sub2.obligations:
-                if o['verdict'] == 'holds':
-                    run.ok(o['rule'], o['construct'], o['fact'], loc=o['loc'])
-            for f in sub2.findings:
-                run.bad(f['rule'], f['construct'], f['sub'], f['message'], loc=f['loc'])
+        # (the structural reading is only the fallback: it judges how the loop is written, the evaluation what it computes)
     run.guard('C15.R4', _r4_both, run, rt)
     run.guard('C15.R5', r5, run, rt)
     run.guard('C15.R6', r6, run, rt)
